@@ -17,7 +17,7 @@ RULE = ('Inputs: the suite\'s fixture documents and small generated documents of
         'non-trivial = distinct mutated inputs that still begin with a well-formed ISA.')
 ASSUMPTIONS = ['path-based sources are not used here (C01/C20 cover them); sinks are StringIO',
                'the step budget is 2e6 + 2000*len(text) Python function entries per run (deterministic); the wall-clock watchdog only yields inconclusive']
-REQUIRED_COUNTERS = ['runs:x12n_document', 'runs:reader', 'runs:context', 'outcome:bool', 'outcome:refused', 'inputs:mutated', 'inputs:hostile-numeral-in-count', 'inputs:composite-cut-short', 'inputs:fuzz', 'inputs:envelope-soup', 'inputs:catalogue-faults', 'inputs:catalogue-faults:qualified-datetime', 'inputs:directed-pattern-fault', 'config:simple_dtd', 'config:exclude_external_codes', 'config:map_path', 'sinks:ack+html+xml', 'sinks:none']
+REQUIRED_COUNTERS = ['runs:x12n_document', 'runs:reader', 'runs:context', 'outcome:bool', 'outcome:refused', 'inputs:mutated', 'inputs:hostile-numeral-in-count', 'inputs:composite-cut-short', 'inputs:c0-control-character-in-a-value', 'inputs:later-interchange-of-unknown-version', 'inputs:fuzz', 'inputs:envelope-soup', 'inputs:catalogue-faults', 'inputs:catalogue-faults:qualified-datetime', 'inputs:directed-pattern-fault', 'config:simple_dtd', 'config:exclude_external_codes', 'config:map_path', 'sinks:ack+html+xml', 'sinks:none']
 MIN_CASES = {'quick': 1200, 'thorough': 40000}
 WATCHDOG_S = {'quick': 1200, 'thorough': 7200}
 
@@ -228,6 +228,28 @@ def run(ctx):
                 text, names_ = base, ['unmutated']
             else:
                 text, names_ = mutate.mutate(rng, base)
+            if k % 5 == 2 and len(text) > 200:
+                # any C0 control character (not only the ones the package's tables name) inside an element value of a body segment
+                t0_ = text[105] if len(text) > 105 else '~'
+                cc_ = rng.choice([c for c in map(chr, range(1, 32)) if c not in text[:106] and c not in '\r\n'])
+                cut_ = [m_ for m_ in range(300, len(text) - 5) if text[m_].isalnum() and text[m_ - 1].isalnum()]
+                if cut_:
+                    m_ = rng.choice(cut_)
+                    text = text[:m_] + cc_ + text[m_:]
+                    names_ = list(names_) + ['c0-control-character:%02x' % ord(cc_)]
+                    ctx.count('inputs:c0-control-character-in-a-value')
+            if k % 5 == 4 and len(text) > 110 and text[:3] == 'ISA':
+                # a later interchange whose ISA12 names a version there is no control map for (with and without a group inside)
+                e_, s_ = text[3], text[105]
+                ver_ = rng.choice(['00400', '00402', '00301', '00200', '     ', 'X0401'])
+                isa_ = text[:106].split(e_)
+                if len(isa_) == 17:
+                    isa_[12] = ver_
+                    isa_[13] = '%09d' % rng.randint(1, 999999998)
+                    inner_ = (e_.join(['GS', 'HC', 'A', 'B', '20240102', '1230', '7', 'X', '004010X098A1']) + s_ + e_.join(['GE', '0', '7']) + s_) if rng.random() < 0.4 else ''
+                    text = text + e_.join(isa_) + inner_ + e_.join(['IEA', '1' if inner_ else '0', isa_[13]]) + s_
+                    names_ = list(names_) + ['later-interchange-of-unknown-version:' + ver_]
+                    ctx.count('inputs:later-interchange-of-unknown-version')
             case = {'base': bname, 'mutations': names_, 'gen': ['c07', ctx.shard, k], 'text': text if len(text) <= 6000 else None, 'text_len': len(text)}
             ctx.count('inputs:mutated')
             if 'component-cut' in names_:
